@@ -1748,6 +1748,12 @@ def check_C05(tier, seed):
     for i in range(240 if tier == "quick" else 4000):
         scs.append(hash_script(rng, "h%d" % i, pols[i % 4] if i % 3 else rng.choice(["chk", "ind"]), tier))
     F.execute_and_validate("C05", exe, scs, out, "c05", TCFG, trace_module=MOD)
+    # classes known under SEVERAL ids (many-to-one type_index): every id of a class must be hashed and lead to that class's
+    # v-table -- observed through dispatch, with objects created under every registered id, under the hashed projected policy
+    dexe = C.build_dyn()
+    multi = random_scripts(rng, 250 if tier == "quick" else 4000, ["prj", "fast", "chk"], ("T", "CT"), max_n=10,
+                           style=lambda r: r.choice(["random", "random", "complete", "direct"]))
+    F.execute_and_validate("C05", dexe, multi, out, "c05-multi-id", "TraceYomm2_dispatch.cfg")
     counts = {"hashfail": 0, "unknown": 0, "ok": 0}
     # re-run a sample to count what happened (coverage; not a verdict)
     sp, tp = F.run_dyn(exe, "".join(s.text() for s in scs[:200]), "c05-count")
